@@ -23,8 +23,8 @@ META = {
     "design_ref": "§7 C24",
 }
 
-LONG_TMO = 45000      # ms; a case the machine model does not predict to hang
-HANG_TMO = 5000       # ms; a case the as-coded machine predicts to hang
+LONG_TMO = 90000      # ms wall clock; the effective hang criterion is the harness's CPU-time budget (3 s per case)
+HANG_TMO = 20000      # ms wall clock for a case the as-coded machine predicts to hang
 
 
 def canon(x):
@@ -335,7 +335,7 @@ def check(tier):
             assumptions=["values within +-10000 and at most 3 iterations per loop instance (runs leaving the bounds are excluded by TLC, not judged)",
                          "every program runs on a fresh engine and session (one witness covers state leaking between two CALLs of one session)",
                          "the engine exposes only the last result set of a CALL; earlier result sets are not observable",
-                         "a CALL that does not return within the per-case timeout is outcome 'hang'"])
+                         "a case on which the worker process burns more than 3 s of CPU time (or 90 s wall clock) is outcome 'hang'"])
         return rc
 
 
